@@ -595,7 +595,7 @@ func runC07(args []string) {
 		}
 	}
 	// ---- workers
-	nw := 6
+	nw := envInt("VERIF_C07_WORKERS", 4)
 	outs := make([]map[int]*c07Out, nw)
 	extras := make([]map[int]string, nw)
 	hlib.Parallel(nw, nw, func(w int) {
